@@ -29,6 +29,9 @@ struct StackDesc {
     /// global filter layers; true = placed outside the tree (asked first), false = between the
     /// tree and the registry
     globals: Vec<(GFilter, bool)>,
+    /// per leaf (DFS order): the leaf's event_enabled() vetoes events of this callsite
+    #[serde(default)]
+    veto: Vec<Option<u8>>,
 }
 #[derive(Clone, Debug, Serialize, Deserialize, PartialEq)]
 enum Op {
@@ -103,17 +106,23 @@ struct Built {
     logs: Vec<LeafLog>,
     flat: Flat,
     globals: Vec<GFilter>,
+    veto: Vec<Option<u8>>,
 }
 fn build(desc: &StackDesc) -> Built {
     let mut logs = vec![];
-    let tree = build_tree(&desc.tree, &mut logs, &mut |log, _| RecLeaf::new(log).boxed());
+    let veto = desc.veto.clone();
+    let tree = build_tree(&desc.tree, &mut logs, &mut |log, idx| {
+        let mut l = RecLeaf::new(log);
+        l.veto_cs = veto.get(idx).copied().flatten().map(|c| c as i64);
+        l.boxed()
+    });
     let mut combined: BS = tree;
     for (g, outer) in &desc.globals {
         let gb = g.build();
         combined = if *outer { combined.and_then(gb).boxed() } else { gb.and_then(combined).boxed() };
     }
     let dispatch = Dispatch::new(Registry::default().with(combined));
-    Built { dispatch, logs, flat: flatten(&desc.tree), globals: desc.globals.iter().map(|g| g.0.clone()).collect() }
+    Built { dispatch, logs, flat: flatten(&desc.tree), globals: desc.globals.iter().map(|g| g.0.clone()).collect(), veto: desc.veto.clone() }
 }
 
 #[derive(Clone, Debug)]
@@ -211,8 +220,14 @@ fn run_case(case: &Case) -> Outcome {
                 let cs = cs % 9;
                 let ev = evaluate(&spans, &th, cs);
                 let mut pattern = vec![];
+                // a leaf whose own filters accept the event may veto it for everybody in
+                // event_enabled()
+                let vetoed = b.flat.leaf_paths.iter().enumerate().any(|(l, path)| b.veto.get(l).copied().flatten() == Some(cs) && ev.globals_ok && path.iter().all(|f| ev.acc[*f]));
+                if vetoed {
+                    classes.push("event_vetoed_by_event_enabled".into());
+                }
                 for (l, path) in b.flat.leaf_paths.iter().enumerate() {
-                    let got = ev.globals_ok && path.iter().all(|f| ev.acc[*f]);
+                    let got = !vetoed && ev.globals_ok && path.iter().all(|f| ev.acc[*f]);
                     pattern.push(got);
                     if got {
                         let cur = view_current(&spans, &th, t, path);
@@ -496,7 +511,7 @@ impl Property for C07 {
             3 => (t(), cs()).prop_map(|(t, cs)| Op::Probe { t, cs }),
             1 => (t(), cs()).prop_map(|(t, cs)| Op::Abort { t, cs }),
         ];
-        let stack = (node_strategy(true, 2), proptest::collection::vec((gfilter_strategy(), any::<bool>()), 0..3)).prop_map(|(tree, globals)| StackDesc { tree, globals });
+        let stack = (node_strategy(true, 2), proptest::collection::vec((gfilter_strategy(), any::<bool>()), 0..3), proptest::collection::vec(proptest::option::weighted(0.12, 0u8..9), 6)).prop_map(|(tree, globals, veto)| StackDesc { tree, globals, veto });
         let max = tier.pick(30usize, 45usize);
         (proptest::collection::vec(stack, 1..3), proptest::collection::vec(op, 1..max)).prop_map(|(stacks, ops)| Case { stacks, ops, no_steer: false }).boxed()
     }
@@ -504,7 +519,7 @@ impl Property for C07 {
         run_case(case)
     }
     fn rule(&self) -> String {
-        "case = 1-2 stacks (tree of <=6 recording leaves under plain/Filtered(nested)/Layered/Vec/Option/Box nodes with filters from level, targets, static env directives, filter_fn, a context-dependent dynamic_filter_fn and and/or/not to depth 2, plus 0-2 top-level global filter layers inside or outside the tree) x <=30 (thorough <=45) ops {Event,Open,Enter,Exit,Close,Record,enabled! probe,aborted emission} through the real macros at 9 level x target callsites on 2 stepped threads (thread t uses stack t mod #stacks), fresh process per case. non-trivial: some emission is accepted by one filtered leaf and rejected by another (>=2 filtered leaves) and the accept pattern over the leaves differs between two consecutive emissions of a thread; distinct by (stacks, ops)".into()
+        "case = 1-2 stacks (tree of <=6 recording leaves under plain/Filtered(nested)/Layered/Vec/Option/Box nodes with filters from level, targets, static env directives, filter_fn, a context-dependent dynamic_filter_fn and and/or/not to depth 2, plus 0-2 top-level global filter layers inside or outside the tree) x <=30 (thorough <=45) ops {Event,Open,Enter,Exit,Close,Record,enabled! probe,aborted emission}; leaves may veto one event callsite in event_enabled() through the real macros at 9 level x target callsites on 2 stepped threads (thread t uses stack t mod #stacks), fresh process per case. non-trivial: some emission is accepted by one filtered leaf and rejected by another (>=2 filtered leaves) and the accept pattern over the leaves differs between two consecutive emissions of a thread; distinct by (stacks, ops)".into()
     }
     fn assumptions(&self) -> Vec<String> {
         vec![
